@@ -923,3 +923,156 @@ func genNames(r *rand.Rand, id string) *Case {
 }
 
 func init() { generators["names"] = genNames }
+
+// genCopy (C13): a simple Query starts COPY-in; then CopyData / CopyDone / CopyFail / Flush /
+// Sync / foreign / oversized messages; the handler reads up to n chunks, with or without
+// returning the read error; stray COPY messages and a probe query follow.
+// xk = the reads the handler must observe, xp = the reply notation (simulated here).
+func genCopy(r *rand.Rand, id string) *Case {
+	c := baseCase(id, "copy")
+	c.L = []int{0, 64}[r.Intn(2)]
+	in := plainStartup("u")
+	ncols := 1 + r.Intn(3)
+	cols := make([]string, ncols)
+	for i := range cols {
+		cols[i] = "t"
+	}
+	format := r.Intn(2)
+	nreads := 1 + r.Intn(6)
+	guard := r.Intn(2) == 0
+	g := ""
+	if guard {
+		g = "?"
+	}
+	script := strings.Join(cols, ",") + "//g:" + strconv.Itoa(format) + ";K" + strconv.Itoa(nreads) + g + ";c:" + hxs("COPY 1") + "/ok"
+	if len(script)+1 > 64 && c.L == 64 {
+		c.L = 256
+	}
+	L := c.L
+	in = append(in, msgQuery(script)...)
+	xp := []string{"T" + strconv.Itoa(ncols), "G"}
+	var xk []string
+	// client messages during the COPY
+	nm := r.Intn(7)
+	reads := 0
+	over := false // handler has left its read loop
+	var handlerErr string
+	for i := 0; i < nm; i++ {
+		var m []byte
+		kind := r.Intn(12)
+		switch {
+		case kind < 5:
+			p := randBytes(r, r.Intn(9), false)
+			m = msgCopyData(p)
+			if !over {
+				xk = append(xk, "k+"+hex.EncodeToString(p))
+				reads++
+			}
+		case kind < 6:
+			m = msgCopyDone()
+			if !over {
+				xk = append(xk, "k.")
+				over = true
+			}
+		case kind < 7:
+			m = msgCopyFail("why")
+			if !over {
+				xk = append(xk, "k-L"+hxs("client aborted copy: why"))
+				over = true
+				handlerErr = "EXXUUU:ERROR"
+			}
+		case kind < 9:
+			m = [][]byte{msgFlush(), msgSync()}[r.Intn(2)]
+			if over && m[0] == 'S' {
+				// after the handler returned the cycle has ended (see below): a Sync is answered
+				in = append(in, m...)
+				if !guardDone(xp) {
+					xp = finishCopy(xp, guard, handlerErr)
+				}
+				xp = append(xp, "Z")
+				continue
+			}
+		case kind < 10:
+			t := []byte("PBDEC")[r.Intn(5)]
+			m = typed(t, []byte{0, 0, 0, 0, 0, 0, 0, 0})
+			if !over {
+				xk = append(xk, "k-L"+hxs("unimplemented client message type: "+strconv.Itoa(int(t))))
+				over = true
+				handlerErr = "E08003:FATAL"
+			} else {
+				// processed at top level after the cycle: only safe to predict for none here; avoid
+				continue
+			}
+		default:
+			if L == 0 {
+				continue
+			}
+			sz := L + 1 + r.Intn(L)
+			m = typed('d', randBytes(r, sz, false))
+			if !over {
+				xk = append(xk, "k-L"+hxs("message size "+strconv.Itoa(sz)+", bigger than maximum allowed message size "+strconv.Itoa(L)))
+				over = true
+				handlerErr = "E54000:ERROR"
+			} else {
+				in = append(in, m...)
+				if !guardDone(xp) {
+					xp = finishCopy(xp, guard, handlerErr)
+				}
+				xp = append(xp, "E54000:ERROR")
+				continue
+			}
+		}
+		in = append(in, m...)
+		if !over && reads >= nreads {
+			over = true
+		}
+	}
+	if !over {
+		// the handler is still waiting for input: nothing more is written
+		c.In = in
+		c.Cuts = randCuts(r, len(in))
+		c.Extra["xp"] = strings.Join(xp, ",")
+		c.Extra["xk"] = "=" + strings.Join(xk, ";")
+		c.Extra["xend"] = "w"
+		return c
+	}
+	if !guardDone(xp) {
+		xp = finishCopy(xp, guard, handlerErr)
+	}
+	// stray COPY messages outside COPY mode are ignored; then a probe
+	for i := 0; i < r.Intn(3); i++ {
+		in = append(in, [][]byte{msgCopyData([]byte("zz")), msgCopyDone(), msgCopyFail("late")}[r.Intn(3)]...)
+	}
+	q := probeQuery("END", 0)
+	if L == 0 || len(q)+1 <= L {
+		in = append(in, msgQuery(q)...)
+		xp = append(xp, xpC("END"), "Z")
+	}
+	c.In = in
+	c.Cuts = randCuts(r, len(in))
+	c.Extra["xp"] = strings.Join(xp, ",")
+	c.Extra["xk"] = "=" + strings.Join(xk, ";")
+	c.Extra["xend"] = "w"
+	return c
+}
+
+// guardDone reports whether the COPY cycle's end has already been appended to xp.
+func guardDone(xp []string) bool {
+	for _, x := range xp[2:] {
+		if x == "Z" || strings.HasPrefix(x, "C") || strings.HasPrefix(x, "E") {
+			return true
+		}
+	}
+	return false
+}
+
+// finishCopy appends the end of the COPY cycle: the handler returns the read error (guard) ->
+// one ErrorResponse, or completes -> CommandComplete; then exactly one ReadyForQuery.
+func finishCopy(xp []string, guard bool, handlerErr string) []string {
+	if guard && handlerErr != "" {
+		return append(xp, handlerErr, "Z")
+	}
+	return append(xp, "C"+hxs("COPY 1"), "Z")
+}
+
+func init() { generators["copy"] = genCopy }
